@@ -128,7 +128,7 @@ Definition suite_C03 (inp obs : list tok) : verdict :=
             | Some ro =>
                 let c := {| c3_mode := if md =? 0 then Debug else Release; c3_mem := combine starts bs;
                             c3_ops := ops' |} in
-                {| v_model := concat (map enc_sobs (run_C03 c)); v_ok := ok_C03 c ro; v_wellformed := true |}
+                {| v_model := concat (map enc_sobs (run_C03 c)); v_ok := forallb (fun o => s_k o <? 10) ro && ok_C03 c ro;   (* kind 10: the two call routes disagree *) v_wellformed := true |}
             | None => malformed end
         | _, _ => malformed end
       else malformed
